@@ -68,6 +68,11 @@ def judge(inst, flavour, pw, w, ids, x, y, pattern, acc):
     obs = {}
     k1, k2, m1, m2, nc = exchange(inst, flavour, pw, ids, x, y, pattern, acc, record=obs)
     acc.n(transitions=nc)
+    if ("exc", "EntropyExhausted") in (m1, m2):
+        # the sampler asked for more entropy than the script that encodes this scalar holds: with an unbounded stream the run would go
+        # on with another scalar.  Which scalar a stream yields is C11's subject; this run is not an execution C01 can judge.
+        acc.degrade("%s: start() asked for more entropy than the script for the intended scalar holds (sampler: see C11)" % fam(inst))
+        return
     # reference classification of the run: the two coincidences the statement exempts are properties of the PROTOCOL for the
     # scalars the instances drew (a bug that makes a message the identity is not exempt)
     xo = x if obs.get("x") is None else obs["x"]
@@ -353,7 +358,7 @@ def run(tier, seed):
     core.pmerge(_small_task, tasks, acc)
     core.pmerge(_ids_task, ["T23", "E37"] if quick else ["T23", "T29", "E37", "E109"], acc)
     stasks = []
-    for name in T.SHIPPED:
+    for name in T.SHIPPED + T.WIDE:
         inst, why = T.try_get(name)
         if inst is None:
             acc.degrade("%s unavailable: %s" % (name, why))
